@@ -1532,7 +1532,9 @@ impl MetadataClient for ObjectStoreMetadataClient {
     }
 
     async fn get_chunks_for_shard(&self, shard_id: &str) -> Result<Vec<TimeIndexEntry>> {
-        let catalog = self.load_catalog_cached().await?;
+        // This listing drives the copy-then-delete decisions of a shard split: it must see
+        // chunks other processes registered a moment ago, so it bypasses the catalog cache.
+        let (catalog, _etag) = self.load_catalog_with_etag().await?;
 
         // Filter chunks by shard_id field first, fall back to path.contains() for legacy data
         let results: Vec<TimeIndexEntry> = catalog
